@@ -25,6 +25,14 @@ CLAIMED = {
          "Every region appended by the real writer must parse as exactly one well-formed file equal to the argument.", "6 C06/C14"),
  "C15": ("runtime monitoring: history invariant at DiskFile.add_file (free-granule / slot accounting vs shadow free sets) over fill-to-exhaustion histories + audit-hook check of failing host saves",
          "Fit/no-fit, granules used and slots consumed are judged on every addition of histories that drive images to exhaustion; all 72 single-free-slot directory states are enumerated; failing CLI saves must leave the host file untouched.", "6 C15"),
+ "C09": ("runtime monitoring: shadow-list history checker over save / re-open / append sequences on real host files (API and both CLIs), reference parsers as independent observers, sniffed-kind recorder",
+         "After every operation of generated histories the host bytes are parsed by the reference parsers and by the tool and compared with a shadow list; M7/M8 assert 'earlier bytes/files untouched' at every add_file.", "6 C09"),
+ "C10": ("runtime monitoring: audit-hook file-effect log + content hashes over the exhaustive CLI configuration matrix, judged by a decision table; strace as second observer",
+         "All 132 cells of the matrix (11 pre-existing target kinds) run in both tiers plus random invocation sequences; the target may change only when the decision table allows it.", "6 C10"),
+ "C11": ("runtime monitoring: CLI outputs parsed by independent readers and compared with an in-process assembly of the same text",
+         "BIN/CAS/DSK outputs of assembler.py for generated programs are compared with the image, origin and name obtained from Program.process; file_util --list is a third witness.", "6 C11"),
+ "C16": ("runtime monitoring: conservation check of file sets across file_util conversions and conversion chains, reference parsers as oracle",
+         "Source images from reference writers are converted through the real CLI; the produced image must list exactly the selected files unchanged; chains must return the original set.", "6 C16"),
 }
 LEVEL_NOTE = ("Trusted base: the harness's reference models under vlib/ref (self-tested), CPython's sys.addaudithook / sys.monitoring, and the "
               "generators' reach (form catalogue, boundary sets, seeds). Holds only for the executions actually produced; see DESIGN.md sections 1 and 11.")
